@@ -44,7 +44,7 @@ func init() {
 			"takes no reported data from the requester's own server connection.",
 		Explanation: "Decides: dispatch table completeness, binary layout of every response, unchanged forwarding incl. the length-prefixed channel, no nil dereference for unknown players " +
 			"or servers, no double delivery, the named player is the one acted on. Does not decide: the text content of names/lists and what the providers return.",
-		Fixtures: []string{"wire", "guardcut"},
+		Fixtures: []string{"typednil", "wire", "guardcut"},
 		Variants: []Variant{
 			{Name: "forward-channel-unprefixed", File: pkgBungee + "/bungee_message.go",
 				Old: "\t_ = util.WriteUTF(forwarded, channel)", New: "\tforwarded.WriteString(channel)", Expect: "forward-framing"},
